@@ -43,6 +43,7 @@ def regenerate_all():
              ("solve-main-calls", lambda: gen_mainccalls.regenerate(None)),
              ("main-loop-skeleton", lambda: gen_skeleton.regenerate(None)),
              ("controller-skeletons", lambda: gen_skeleton.regenerate_ctrl(None)),
+             ("solve-main-skeleton", lambda: gen_skeleton.regenerate_solve_main(None)),
              ("try-sites", lambda: gen_trysites.regenerate(None)),
              ("row-writes", lambda: gen_rowwrites.regenerate(None))]
     for name, fn in steps:
